@@ -121,7 +121,9 @@ fn mk_opts(cfg: &RunCfg, _rx: Option<mpsc::Receiver<InterruptSignal>>, _w: &W, _
 #[cfg(feature = "int")]
 fn mk_opts(cfg: &RunCfg, rx: Option<mpsc::Receiver<InterruptSignal>>, w: &W, run: usize) -> StreamOpts<'static, 'static> {
     let mut o = StreamOpts::new();
-    if cfg.order == "rev" {
+    // the builder methods are called in either order (`rev()` first or last), decided by the option set
+    let rev_last = (cfg.k + cfg.limit.unsigned_abs() + cfg.include as u64) % 2 == 1;
+    if cfg.order == "rev" && !rev_last {
         o = o.rev();
     }
     let state = match cfg.strategy.as_str() {
@@ -149,6 +151,9 @@ fn mk_opts(cfg: &RunCfg, rx: Option<mpsc::Receiver<InterruptSignal>>, w: &W, run
     }
     if !cfg.include {
         o = o.interrupted_next_item_include(false);
+    }
+    if cfg.order == "rev" && rev_last {
+        o = o.rev();
     }
     o
 }
